@@ -19,6 +19,9 @@ CLAIMED = {
  "C04": ("memsim", "fault_enumeration", "deterministic simulation: nested crashes inside Memvid::open's recovery, compared with the uninterrupted recovery",
          "Crash images that need recovery are opened under the recorder; the recovery's own syscall log is cut at sampled points (nested up to depth 3); the final uninterrupted open must show exactly what a single uninterrupted recovery shows, and opening a recovered file again must change nothing.",
          "Process-crash model inside recovery. The in-place recovery is a listed known finding.", "DESIGN.md section 7 C04"),
+ "C05": ("walsim", "exploration", "deterministic simulation: seeded EmbeddedWal histories vs vector-of-records model, head steering, power-loss reopen",
+         "The public EmbeddedWal API is driven directly (append, checkpoint, stats, scans, reopen from header, read-only view, power-loss reopen from the recorded syscall log) over regions of 96..4096 bytes and 64 KiB with payload sizes steered to the ring's edge cases; every scan is compared with a vector-of-records model. ~10^5 short runs per quick batch.",
+         "Sampling, not the exhaustive enumeration the property's quantifier mentions (that is model checking). The caller persists the header at each checkpoint, as Memvid does.", "DESIGN.md section 7 C05"),
 }
 
 NA = {
@@ -75,6 +78,8 @@ def main():
         "engines": [
             {"name": "memsim", "path": "/verif/sim", "serves_properties": [c["property_id"] for c in checks if c["engine"] == "memsim"],
              "kind_free_text": "deterministic simulator: libc interposition inside the binary (syscall recorder, fault injection, virtual clock, seeded entropy), reference model, crash-image builder, shrinker, replayer; one simulated world per forked process"},
+            {"name": "walsim", "path": "/verif/sim", "serves_properties": [c["property_id"] for c in checks if c["engine"] == "walsim"],
+             "kind_free_text": "same binary: drives the public EmbeddedWal API on a file in the simulated directory against a vector-of-records model"},
         ],
         "checks": checks,
         "not_applicable": na,
